@@ -284,6 +284,10 @@ def _decomp_or(c, p, out):
         for x in c.a[1]:
             _decomp_or(x, p, out)
         return
+    if c.op == "call" and call_name(c) in ("builtins.any", "builtins.all") and len(c.a[1]) == 1 and c.a[1][0].op == "comp" and c.a[1][0].a[0] in ("gen", "list"):
+        # any(test(x) for x in xs): the test holds for some element - the guard of a raise inside the loop over xs
+        _decomp_or(c.a[1][0].a[1], p, out)
+        return
     if c.op == "bin" and c.a[0] in ("|", "&") and all(z.op in ("cmp", "bin", "call", "un") for z in c.a[1:]):
         # element-wise combination of Boolean arrays written with operators
         for x in c.a[1:]:
@@ -500,6 +504,8 @@ def _guard_tree(c, p):
         kind, kids = ("or" if call_name(c) == "np.logical_or" else "and"), c.a[1]
     elif c.op == "bin" and c.a[0] in ("|", "&") and all(z.op in ("cmp", "bin", "call", "un") for z in c.a[1:]):
         kind, kids = ("or" if c.a[0] == "|" else "and"), c.a[1:]
+    elif c.op == "call" and len(c.a[1]) == 1 and c.a[1][0].op == "comp" and c.a[1][0].a[0] in ("gen", "list") and ((call_name(c) == "builtins.any" and p) or (call_name(c) == "builtins.all" and not p)):
+        return _guard_tree(c.a[1][0].a[1], p)
     elif c.op == "call" and len(c.a[1]) == 1 and ((call_name(c) == "np.any" and p) or (call_name(c) == "np.all" and not p)):
         return _guard_tree(c.a[1][0], p)  # somewhere (a | b): a somewhere or b somewhere; somewhere (a & b): both, at one place
     if kind is None:
@@ -811,6 +817,29 @@ def _proves_two(den_arg, pc):
     apps = [x for x in tm.walk(den_arg) if x.op == "call" and call_name(x) == "np.append"]
     if len(apps) >= 2 and any(any(y is x for y in tm.walk(a.a[1][0])) for a in apps for x in apps if x is not a):
         return "the array lists positions in a vector that had a sentinel appended at both ends"
+    # the sentinel idiom with a pre-allocated buffer: positions of 0 in np.zeros(n + 2) whose interior [1:-1] alone is written
+    for x in tm.walk(den_arg):
+        if x.op == "cmp" and x.a[0] == "==" and any(tm.is_const(z, 0) for z in x.a[1:]):
+            arr = [z for z in x.a[1:] if not tm.is_const(z, 0)]
+            if len(arr) == 1:
+                b = arr[0]
+                keys = []
+                for _ in range(200):
+                    if b.op == "upd" and b.a[1] == "setitem":
+                        keys.append(b.a[2])
+                        b = b.a[0]
+                    elif b.op in ("loop", "loopvar"):
+                        keys.extend(u.a[2] for u in tm.walk(b.a[3]) if b.op == "loop" and u.op == "upd" and u.a[1] == "setitem")
+                        b = b.a[2]
+                    else:
+                        break
+
+                def interior(k):
+                    sl = k.a[0] if k.op == "via" else k
+                    return sl.op == "slice" and tm.is_const(sl.a[0], 1) and tm.is_const(sl.a[1], -1) and tm.is_const(sl.a[2], None)
+
+                if b.op == "call" and call_name(b) == "np.zeros" and b.a[1] and b.a[1][0].op == "bin" and b.a[1][0].a[0] == "+" and any(tm.is_const(z, 2) for z in b.a[1][0].a[1:]) and all(interior(k) for k in keys):
+                    return "the array lists the positions of 0 in a vector of n + 2 zeros of which only the interior [1:-1] is written: both ends stay 0"
     # the same sentinel idiom with one concatenation: positions where concatenate(([k], xs, [k])) == k
     for x in tm.walk(den_arg):
         if x.op == "cmp" and x.a[0] == "==":
